@@ -187,13 +187,38 @@ pub struct CommonPlayerJson<'a> {
 }
 
 #[cfg(feature = "clap")]
-fn parse_duration_secs(value: &str) -> Result<Duration, std::num::ParseIntError> {
-    let secs = value.parse()?;
+fn parse_duration_secs(value: &str) -> Result<Duration, String> {
+    let secs: u64 = value.parse().map_err(|e: std::num::ParseIntError| e.to_string())?;
+    // Same rule as TimeoutSettings::new
+    if secs == 0 {
+        return Err("duration must not be 0".to_string());
+    }
     Ok(Duration::from_secs(secs))
+}
+
+/// The serialized form of [TimeoutSettings], deserializing goes through
+/// [TimeoutSettings::new] so the same validation applies.
+#[cfg(feature = "serde")]
+#[derive(Deserialize)]
+struct TimeoutSettingsUnchecked {
+    connect: Option<Duration>,
+    read: Option<Duration>,
+    write: Option<Duration>,
+    retries: usize,
+}
+
+#[cfg(feature = "serde")]
+impl TryFrom<TimeoutSettingsUnchecked> for TimeoutSettings {
+    type Error = crate::GDError;
+
+    fn try_from(value: TimeoutSettingsUnchecked) -> GDResult<Self> {
+        Self::new(value.read, value.write, value.connect, value.retries)
+    }
 }
 
 /// Timeout settings for socket operations
 #[cfg_attr(feature = "serde", derive(Serialize, Deserialize))]
+#[cfg_attr(feature = "serde", serde(try_from = "TimeoutSettingsUnchecked"))]
 #[cfg_attr(feature = "clap", derive(clap::Args))]
 #[derive(Debug, Clone, Copy, PartialEq, Eq, Hash, PartialOrd, Ord)]
 pub struct TimeoutSettings {
